@@ -24,6 +24,7 @@ LEVEL_TEXT = ("All five classes with shapes chosen to misalign every region of t
 LEVEL_NOTE = "state equality on the documented arrays and parameters, queries included; log types under identical draws"
 BUDGET = {"quick": 75, "thorough": 300}
 SHARDS = {"quick": 1, "thorough": 16}
+BOUNDSCHECK = True
 SHM_LEAK_IS_VIOLATION = True
 
 
@@ -180,10 +181,12 @@ def run(ctx, mon):
     state.fast_del(True)
     # the segment-presence checks need deterministic finalisation: collect with the real collector explicitly
     state.numba_seed(1)
-    before = shm_census()
+    from ..common import shm_created_alive, track_shm
+
+    track_shm()
     run_cases(ctx, mon, gen_cases(ctx), run_case)
     gc.collect()
-    left = sorted(shm_census() - before)
+    left = shm_created_alive()
     mon.begin_case({"census": "end of run"})
     mon.check(not left, "no-shared-memory-segment-left-behind", names=left[:10])
     mon.end_case()
